@@ -123,12 +123,12 @@ theorem stack_push_fns_checked :
       debug_message_with_src, outbuf_addv);
     * `error (regexp_error)` - the global is only ever set to string literals of lib/efuns/regexp.c by `regerror()`;
     * `sprintf_error` - `error (lbuf)` where lbuf was built from a literal table and an int ("%%s" is doubled there);
-    * `string_print_formatted` - `sprintf (temp, cheat, ..)`: `cheat` is rebuilt by the driver from the parsed,
+    * `string_print_formatted` - `snprintf (temp, sizeof temp, cheat, ..)`: `cheat` is rebuilt by the driver from the parsed,
       validated conversion (one `%`, flags, one conversion letter);
     * `yyerrorp` - compile-time messages (C02), called with literals. -/
 def formatAllowList : List (String × String × String) :=
   [("lib/efuns/sprintf.c", "sprintf_error", "error"),
-   ("lib/efuns/sprintf.c", "string_print_formatted", "sprintf"),
+   ("lib/efuns/sprintf.c", "string_print_formatted", "snprintf"),
    ("lib/efuns/sscanf.c", "inter_sscanf", "error"),
    ("lib/logger/logger.c", "debug_message", "vsnprintf"),
    ("lib/logger/logger.c", "debug_message_with_src", "vsnprintf"),
